@@ -1278,6 +1278,8 @@ func (f *Facts) buildCallSites() {
 func (f *Facts) entryAtoms(fn *ssa.Function) []Atom {
 	if f.sitesOf == nil {
 		f.buildCallSites()
+	}
+	if f.entryMemo == nil {
 		f.entryMemo = map[*ssa.Function][]Atom{}
 		f.entryBusy = map[*ssa.Function]bool{}
 	}
@@ -1476,4 +1478,32 @@ func (f *Facts) fnTok(fn *ssa.Function) string {
 		q = shortPkg(root.Pkg.Pkg.Path())
 	}
 	return q + "__" + fn.Name()
+}
+
+// callSummaryAtoms: the atoms that hold when the module function called by `call` succeeded (nil error / true) or
+// failed, with its parameters replaced by the arguments of this call (see summaryOf). nil if there is no summary.
+func (f *Facts) callSummaryAtoms(call *ssa.Call, success bool) []Atom {
+	g := calleeOf(call)
+	if g == nil || g.Blocks == nil || g.Pkg == nil || !isModulePath(g.Pkg.Pkg.Path()) || isMockPath(g.Pkg.Pkg.Path()) {
+		return nil
+	}
+	s := f.summaryOf(g, 0)
+	if s.ambiguous {
+		return nil
+	}
+	facts := s.onSuccess
+	if !success {
+		facts = s.onFailure
+	}
+	var out []Atom
+	args := call.Call.Args
+	for _, fa := range facts {
+		na := fa
+		na.TA = substParams(fa.TA, s.paramRoot, args, f, true)
+		na.TB = substParams(fa.TB, s.paramRoot, args, f, true)
+		na.A = substParams(fa.TA, s.paramRoot, args, f, false)
+		na.B = substParams(fa.TB, s.paramRoot, args, f, false)
+		out = append(out, na)
+	}
+	return out
 }
